@@ -43,17 +43,57 @@ def all_jobs(harness, grammars, maxlen_by_nterm, extra=None, split_from=3):
     return jobs
 
 
+NEAR_BASES = {"G1": 3, "G2": 2, "G3": 3, "G4": 2, "G5": 3, "G6": 2, "G7": 3, "G8": 2, "G9": 3, "G10": 4, "G11": 2, "G12": 4, "G13": 4, "G14": 3, "G15": 4, "G16": 2, "G17": 2, "G18": 2}
+
+
+def near_jobs(harness, grammars, edits, extra=None):
+    """NEAR(k) input family: every listed base sentence of the grammar with k symbolic edits."""
+    jobs = []
+    for gid in grammars:
+        for bi in range(NEAR_BASES[gid]):
+            p = {"grammar": GIDX[gid], "base": bi, "edits": edits}
+            p.update(extra or {})
+            jobs.append({"harness": harness, "params": p, "weight": 50 ** edits})
+    return jobs
+
+
 def plan_C01(tier, seed):
     b = BOUNDS["C01"][tier]
     jobs = all_jobs("hC01.c", b["grammars"], b["all_len"])
     jobs += all_jobs("hC01.c", b["text_grammars"], b["text_len"], {"via_text": 1})
     jobs += all_jobs("hC01.c", b["nonstrict_grammars"], b["text_len"], {"strict": 0})
+    jobs += near_jobs("hC01.c", b["near_grammars"], b["near_edits"])
     wit = [{"harness": "hC01.c", "params": {"grammar": GIDX["G1"], "len": 2, "first": -1, "witness": 1}}]
     return {"jobs": jobs, "witness": wit, "bounds": b,
             "rule": "one state = one complete path of the harness = (catalogue grammar, token-kind sequence of the stated length, one of 24 configurations lookahead x one_parse x cost x recovery); token attributes are symbolic 64-bit values; the solver enumerates exactly the feasible sequences, every assertion is discharged per path",
             "assumptions": ["derivability oracle: naive least fixpoint over spans (spec/oracle.h), independent of yaep"]}
 
 
+def simple_plan(prop, harness, rule, assumptions, extra_params=None):
+    def plan(tier, seed):
+        b = BOUNDS[prop][tier]
+        ep = dict(extra_params or {})
+        for k in ("maxcost", "maxmatch"):
+            if k in b:
+                ep[k] = b[k]
+        jobs = all_jobs(harness, b["grammars"], b["all_len"], ep)
+        if "near_grammars" in b:
+            jobs += near_jobs(harness, b["near_grammars"], b["near_edits"], ep)
+        w = dict(ep); w.update({"grammar": GIDX[b["grammars"][0]], "len": 3, "first": -1, "witness": 1})
+        return {"jobs": jobs, "witness": [{"harness": harness, "params": w}], "bounds": b, "rule": rule, "assumptions": assumptions}
+    return plan
+
+
+TREE_ORACLE = "translation oracle: exhaustive enumeration of all derivations over all splits with the documented translation rules (spec/oracle.h), hash-consed; DAG side: one alternative per ALT occurrence"
+
 PROPS = {
     "C01": {"plan": plan_C01, "home_faults": False},
+    "C02": {"plan": simple_plan("C02", "hC02.c", "one state = (catalogue grammar, sentence of the stated length chosen by the solver, lookahead level); token attributes symbolic 64-bit, so 'TERM carries the attribute of its position' is a solver verdict", [TREE_ORACLE]), "home_faults": False},
+    "C03": {"plan": simple_plan("C03", "hC03.c", "one state = (catalogue grammar, sentence, lookahead level) with all parses requested; set equality denoted(DAG) = translations checked in both directions per path", [TREE_ORACLE, "inputs whose denoted set exceeds 700 trees per node are counted and skipped"]), "home_faults": False},
+    "C04": {"plan": simple_plan("C04", "hC04.c", "one state = (grammar, sentence, lookahead x one_parse x parse_free given/NULL) x one ordering class of the symbolic rule costs that prune_to_minimal distinguishes; each assertion is decided by Z3 for all costs in the class", [TREE_ORACLE, "abstract-node costs symbolic in 0..maxcost, names unique per rule"]), "home_faults": False},
+    "C06": {"plan": simple_plan("C06", "hRec.c", "one state = (grammar, non-sentence of the stated length, lookahead x recovery on/off x one_parse, recovery_match 1..maxmatch); attributes symbolic", ["viable-prefix oracle (spec/oracle.h) with `error' as an ordinary terminal"]), "home_faults": False, "label_prefix": "C06:"},
+    "C07": {"plan": simple_plan("C07", "hRec.c", "one state = (grammar, token sequence, lookahead x recovery x one_parse, recovery_match); the tree is matched against the translations of every repaired input with the reported total of replaced tokens", [TREE_ORACLE, "repairs enumerated for at most 3 syntax_error calls per input"], {"only_errors": 0}), "home_faults": False, "label_prefix": "C07:"},
+    "C08": {"plan": simple_plan("C08", "hRec.c", "one state = (grammar, non-sentence, lookahead x one_parse, recovery_match); minimal simple-recovery cost computed by the viable-prefix oracle over all (back position, forward skip) pairs", ["viable-prefix oracle (spec/oracle.h)"]), "home_faults": False, "label_prefix": "C08:"},
+    "C09": {"plan": simple_plan("C09", "hC09.c", "one state = (grammar, input from ALL(N) or NEAR(k), one_parse x cost x recovery); inside the path the input is parsed with lookahead 0,1,2,-3,7 and debug levels 0,1,-1,6,3 and all observables are compared; with -DYAEP_VERIF every goto-cache hit is re-computed and compared", ["debug output goes to a sink (fprintf model evaluates arguments only)"]), "home_faults": False},
+    "C05": {"plan": simple_plan("C05", "hC05.c", "one state = (grammar, sentence, lookahead x one_parse x cost)", [TREE_ORACLE, "derivation count capped at 1000"]), "home_faults": False},
 }
